@@ -550,6 +550,10 @@ class HostConnection(object):
 
     def _set_keyspace_for_all_conns(self, keyspace, callback):
         if self.is_shutdown or not self._connection:
+            # nothing to switch right now: remember the keyspace for the connection
+            # _replace() opens later, and still complete the caller's operation
+            self._keyspace = keyspace
+            callback(self, [])
             return
 
         def connection_finished_setting_keyspace(conn, error):
